@@ -47,6 +47,10 @@ pub struct Cfg {
     /// Byzantine validator (0 = none).  Each instance has its own disk and its own audience.
     #[serde(default)]
     pub twins: u32,
+    /// Crash enumeration: (node, k, applied) - node dies inside its k-th durable write (1-based,
+    /// counted from the start of the run); `applied` = the write reached the disk.
+    #[serde(default)]
+    pub arm: Option<(u32, u64, bool)>,
 }
 
 #[derive(Debug, Clone, Serialize, Deserialize, PartialEq, Default)]
@@ -116,6 +120,9 @@ pub enum Action {
     /// Twins: redistribute the correct nodes among the twin instances.  Two bits per correct node:
     /// values below the number of twins = that instance only, the value above = every instance.
     Retwin { mask: u64 },
+    /// The network delivers an old message once more (duplication with an arbitrary delay): message
+    /// `k mod len` of everything ever sent, to node `to`.
+    Replay { k: u32, to: u32 },
 }
 
 pub fn tag_of(node: usize, inc: u64) -> u64 {
@@ -878,6 +885,15 @@ impl Cluster {
                 self.inflight.retain(|m| m.to == to || !is_commit_vote(&m.msg));
                 self.hide = Some((to, base));
             }
+            Action::Replay { k, to } => {
+                let to = (*to % n) as usize;
+                if self.is_byz(to) || self.adversary.history.is_empty() {
+                    return;
+                }
+                let m = self.adversary.history[*k as usize % self.adversary.history.len()].clone();
+                self.hub.fault("dup_late");
+                self.deliver_msg(to, None, m);
+            }
             Action::Retwin { mask } => {
                 let k = self.twins.len() as u64;
                 if k == 0 {
@@ -1130,6 +1146,7 @@ pub fn gen_cfg(seed: u64, profile: Profile) -> Cfg {
         faults,
         n_actions,
         twins: 0,
+        arm: None,
     }
 }
 
@@ -1302,6 +1319,9 @@ pub struct RunStats {
     pub abstract_states: Vec<u64>,
     pub panics: Vec<String>,
     pub harness_error: Option<String>,
+    /// Durable write attempts per node over the whole run.
+    #[serde(default)]
+    pub writes: Vec<u64>,
 }
 
 /// Number of views with a correct leader, entered by every correct node during the fair
